@@ -629,7 +629,7 @@ fn mutations(b: &Base, r: &mut Rng, budget: usize, exhaustive_bits: bool, out: &
         // digests cut inside a limb (the Rescue digest readers read limb by limb), prefix rewritten
         for s in lay.segs.iter().filter(|s| s.name == "commitments" || s.name.ends_with(".paths")) {
             let body = &bytes[s.start..s.end];
-            for k in [1usize, 9, 17, 25] { if body.len() > k { out.push(vcase(b, format!("resize:{}-{}", s.name, k), splice(bytes, s, &body[..body.len() - k]))); } }
+            for k in [1usize, 2, 5, 9, 17, 25] { if body.len() > k { out.push(vcase(b, format!("resize:{}-{}", s.name, k), splice(bytes, s, &body[..body.len() - k]))); } }
         }
         for _ in 0..budget.min(24) {
             let i = r.below(bytes.len() as u64) as usize;
